@@ -336,7 +336,7 @@ static void run_single_task(const Plan& p, ExecHooks hooks) {
   ex.release_all();
   std::vector<Exec*> v{&ex};
   op_begin(0, -1, OK_FREE, "(end of run)");
-  if (hooks.check_leaks) final_leak_check(v);
+  final_leak_check(v, hooks.leak_scope);
   op_end();
 }
 
@@ -380,7 +380,7 @@ static void run_threads(const Plan& p) {
   setup.release_all();
   ex.push_back(&setup);
   op_begin(0, -1, OK_FREE, "(end of run)");
-  final_leak_check(ex);
+  final_leak_check(ex, LEAKS_NONE);
   op_end();
 }
 
@@ -400,9 +400,10 @@ static void child_run(const Plan& p) {
   ExecHooks h;
   g_monitor_tables = false;
   if (p.engine == "mem") { run_single_task(p, h); }
-  else if (p.engine == "crystal") { h.deep_crystal_checks = true; run_single_task(p, h); }
+  else if (p.engine == "crystal") { h.deep_crystal_checks = true; h.leak_scope = LEAKS_CRYSTAL_OPS; run_single_task(p, h); }
   else if (p.engine == "purity") {
     h.purity_monitors = true;
+    h.leak_scope = LEAKS_NONE;
     g_monitor_tables = true;
     run_single_task(p, h);
     uint64_t th = tables_hash();
